@@ -241,3 +241,18 @@ def _config_frame(vc, install):
     vc.ensure("O-C10-config.filter-dynamics", all(filt_ok))
     shared = [w for w in log if w[0] in ("cfg", "propagation", "geopotential", "perturbations", "estimation", "sequential_filter", "time", "noise")]
     vc.ensure("O-C10-config.readonly", shared == [] and cfg.propagation.propagation_model == "TRUTH_MODEL", note=str(shared[:3]))
+
+
+@obligation("C10", "time_config", ensures=["B-C10-timeconfig.independent-steps"], fns=["resonaate.scenario.config.time_config:TimeConfig"], mode="Z", native_only=True, samples=60,
+            bounded="BOUNDED stand-in, not a proof (the validators run inside pydantic): 60 (quick) / 600 (thorough) sampled (physics step, output step, start, span) per run, output step smaller than, equal to and larger than the physics step",
+            note="the validated time configuration keeps the physics step, the output step and both timestamps exactly as configured: the output cadence cannot change the step truth is integrated with")
+def time_config(vc):
+    import datetime
+    from resonaate.scenario.config.time_config import TimeConfig
+    phys, out = vc.int("physics_step", 2, 900), vc.int("output_step", 2, 3600)
+    start = datetime.datetime(2020, 1, 1) + datetime.timedelta(seconds=vc.int("start_off", 0, 86400 * 700))
+    stop = start + datetime.timedelta(seconds=vc.int("span", 1, 86400 * 3))
+    cfg = TimeConfig(start_timestamp=start, stop_timestamp=stop, physics_step_sec=phys, output_step_sec=out)
+    cfg2 = TimeConfig(start_timestamp=start.isoformat(), stop_timestamp=stop.isoformat(), physics_step_sec=phys, output_step_sec=phys)
+    vc.ensure("B-C10-timeconfig.independent-steps", cfg.physics_step_sec == phys and cfg.output_step_sec == out and cfg.start_timestamp == start and cfg.stop_timestamp == stop
+              and cfg2.physics_step_sec == phys and cfg2.start_timestamp == start and cfg2.stop_timestamp == stop)
